@@ -227,6 +227,9 @@ type Case struct {
 	ViaSet  bool   `json:"via_set"` // NewDefaultVersion + SetCapabilities instead of Target.Version
 	Caps    []Cap  `json:"caps"`
 	Version string `json:"version"`
+	// Desc: 0 every capability has its own description, 1 all descriptions empty, 2 all equal
+	// (the description is documented as optional and not used by the package)
+	Desc int `json:"desc,omitempty"`
 }
 
 func intComparer(a, b string) (int, error) {
@@ -269,8 +272,14 @@ type outcome struct {
 	panicked any
 }
 
-func mkCap(ctor, idx int, rs []Range) *capability.Capability {
+func mkCap(ctor, idx int, rs []Range, descMode int) *capability.Capability {
 	desc := fmt.Sprintf("cap%d", idx)
+	switch descMode {
+	case 1:
+		desc = ""
+	case 2:
+		desc = "same"
+	}
 	if ctor == 0 {
 		c := &capability.Capability{Description: desc}
 		for _, r := range rs {
@@ -315,7 +324,7 @@ func execute(c Case, capOrder []int, rangeOrder [][]int) (out outcome) {
 				rs[k] = cp.Ranges[j]
 			}
 		}
-		caps[i] = mkCap(c.Ctor, i, rs)
+		caps[i] = mkCap(c.Ctor, i, rs, c.Desc)
 	}
 	tcaps := caps
 	if capOrder != nil {
@@ -1154,6 +1163,7 @@ func genCase(rt *rapid.T) Case {
 	c.Cmp = rapid.IntRange(0, 2).Draw(rt, "cmp")
 	c.Ctor = rapid.IntRange(0, 2).Draw(rt, "ctor")
 	c.ViaSet = rapid.IntRange(0, 3).Draw(rt, "viaSet") == 0
+	c.Desc = rapid.SampledFrom([]int{0, 0, 1, 2}).Draw(rt, "desc")
 	parse := parserFor(c.Cmp)
 	// a small pool of versions per case: bounds and the version are mostly drawn from it,
 	// so that "equal to a bound" and "just beside a bound" are the normal situation
@@ -1275,4 +1285,86 @@ func genCase(rt *rapid.T) Case {
 
 func TestTargets(t *testing.T) {
 	vh.Check(t, "TestTargets", vh.N(20000, 100000), genCase, runCase)
+}
+
+// ---- the same range evaluated under two comparers in one process: a range that is well-formed
+// under one comparer and inverted / zero-width under the other must be reported under the
+// other, whatever was evaluated before
+
+type historyCase struct {
+	Lo, Hi, Version string
+	FirstDefault    bool `json:"first_default"`
+}
+
+// bytewise compares the strings byte by byte ("7.9" > "7.10")
+func bytewise(a, b string) (int, error) { return strings.Compare(a, b), nil }
+
+func runHistory(c historyCase) (f *vh.Failure) {
+	defer func() {
+		if r := recover(); r != nil {
+			f = vh.Failf("C19/panic", "panic: %v", r)
+		}
+	}()
+	eval := func(cmp capability.VersionComparer) (bool, error) {
+		cp := &capability.Capability{Description: "c", VersionRanges: []capability.VersionRange{{Introduced: c.Lo, Removed: c.Hi}}}
+		t := capability.Target{VersionComparer: cmp, Capabilities: []*capability.Capability{cp}}
+		v, err := t.Version(c.Version)
+		if err != nil {
+			return false, err
+		}
+		return v.Has(cp), nil
+	}
+	oracle := func(cmp func(a, b string) (int, error)) (has bool, malformed bool) {
+		lh, _ := cmp(c.Lo, c.Hi)
+		if lh >= 0 {
+			return false, true
+		}
+		a, _ := cmp(c.Lo, c.Version)
+		b, _ := cmp(c.Version, c.Hi)
+		return a <= 0 && b < 0, false
+	}
+	order := []capability.VersionComparer{capability.VersionCompareSemantic, bytewise}
+	names := []string{"semantic", "bytewise"}
+	if !c.FirstDefault {
+		order[0], order[1] = order[1], order[0]
+		names[0], names[1] = names[1], names[0]
+	}
+	for round := 0; round < 2; round++ {
+		for i, cmp := range order {
+			has, err := eval(cmp)
+			wantHas, malformed := oracle(cmp)
+			switch {
+			case malformed && err == nil:
+				return vh.Failf("C19/malformed-range-silent-after-other-comparer", "range {%q,%q} is inverted or zero-width under the %s comparer, evaluation %d answers %v without an error (evaluated under the %s comparer before)", c.Lo, c.Hi, names[i], round*2+i, has, names[1-i])
+			case !malformed && err != nil:
+				return vh.Failf("C19/well-formed-range-error", "range {%q,%q} version %q under the %s comparer: %v", c.Lo, c.Hi, c.Version, names[i], err)
+			case !malformed && has != wantHas:
+				return vh.Failf("C19/wrong-answer", "range {%q,%q} version %q under the %s comparer: Has=%v, want %v", c.Lo, c.Hi, c.Version, names[i], has, wantHas)
+			}
+		}
+	}
+	vh.Label("two-comparers-history")
+	vh.NonTrivial(fmt.Sprintf("hist|%s|%s|%s|%v", c.Lo, c.Hi, c.Version, c.FirstDefault))
+	return nil
+}
+
+func TestTwoComparersHistory(t *testing.T) {
+	e := vh.NewEnum(t, "TestTwoComparersHistory", runHistory)
+	if e.Skip() {
+		return
+	}
+	vs := []string{"7.9.0", "7.10.0", "7.2.0", "10.0.0", "9.0.0", "1.0.0", "2.0.0", "1.10.0", "1.9.0"}
+	for _, lo := range vs {
+		for _, hi := range vs {
+			if lo == hi {
+				continue
+			}
+			for _, v := range []string{"7.9.5", "1.9.5", "8.0.0"} {
+				for _, fd := range []bool{true, false} {
+					e.Do(historyCase{Lo: lo, Hi: hi, Version: v, FirstDefault: fd})
+				}
+			}
+		}
+	}
+	e.Done("every ordered pair of 9 versions as a range x 3 versions x both orders of the semantic and a byte-wise comparer")
 }
